@@ -31,6 +31,12 @@ CLAIMED = {
  "C12": ("exploration", "deterministic simulation: invariant monitor on encode-only runs with a write-counting view of the backend",
          "After every encode of an encode-only history from the empty coder: bits <= sum(info)+sum(eps)+(S+2W) with the analytically derived eps, words <= n + const, at most one backend write per encode_symbol. Long runs (up to 2000 symbols) so that a per-symbol leak overwhelms the constant.",
          "Float summation slack 1e-6*n+1e-6 bits; information content computed from the model's own fixed-point probabilities.", "DESIGN 3 C12"),
+ "C16": ("exploration", "deterministic simulation: seeded write/read/encode/decode/export/re-import/inspection histories on bit-level coders against the R-BITS reference (Vec<bool>)",
+         "StackCoder and QueueEncoder/QueueDecoder over five word types and three backends, with Huffman (integer and float weights) and Exp-Golomb (u8..u64, symbols incl. 0, 2^k-1, 2^k, MAX-1, MAX) codebooks, pre-filled queue sinks; oracles: len()/is_empty() exact at every step, pops return pushes in reverse, queue reads in order followed only by zero padding, decode_symbol equals the same codebook run over R-BITS, export + re-import preserves len and content at every fill level of the last word, maybe_exhausted after the last bit.",
+         "Codeword bits are obtained from the codebooks themselves (their correctness is C15, not decided here); R-BITS is a Vec<bool>.", "DESIGN 3 C16"),
+ "C17": ("exploration", "deterministic simulation with fault injection (full sinks, out-of-range seeks, read/write errors) of the backend seam against the R-BACKEND reference",
+         "Histories over write, extend_from_iter, stack reads, queue reads, remaining, space_left/is_full, maybe_exhausted/maybe_full, pos/seek (back to recorded and to arbitrary incl. out-of-range positions), in-place reversal (both directions), views, mutable views, cloned on Vec, SmallVec, Cursor<Vec>, Cursor<Box<[_]>>, Reverse<Cursor<..>>, FallibleIteratorReadWords with error items, callback writers with failing callbacks; every result is predicted by a Vec+position model; temporal clauses (no read succeeds after end-of-data, 'false' answers of maybe_* are promises).",
+         "Model positions are kept in the un-reversed orientation; reversal must be observationally a no-op for reads and writes.", "DESIGN 3 C17"),
  "C18": ("exploration", "deterministic simulation: query-vs-export monitor at every step",
          "num_words/num_bits/num_valid_bits/is_empty compared after every operation with what exporting at that moment returns; from_binary payload size exact. (Second sentence of the property - entropy/KL diagnostics - is a pure function of a model and is not decided by this technique.)",
          "Only the coder half (first sentence) is claimed; see not_applicable note in DESIGN section 4.", "DESIGN 3 C18"),
@@ -42,7 +48,7 @@ NA = {
  "C15": "pure function of a weight vector (prefix-freeness, Kraft equality, optimality, tie-breaking of Huffman codebooks); no history or fault dimension; see DESIGN section 4",
  "C19": "pure function of constructor input (accept => valid, else fail cleanly); the only fault-injection aspect (garbage parameters must not cause UB) is handled under C20; see DESIGN section 4",
 }
-for pid in ["C05","C10","C13","C14","C16","C17","C20"]:
+for pid in ["C05","C10","C13","C14","C20"]:
     if pid not in CLAIMED:
         PENDING[pid] = "check under construction in this round (design in DESIGN.md section 3); not claimed until its explorer is committed"
 
